@@ -283,6 +283,8 @@ def replay_case(case):
         return check_hashseed(case["exprs"])
     if k == "engine":
         return check_engine(case["expr"])
+    if k == "map-selector":
+        return check_map_selector(case)[0]
     raise HarnessError("unknown case kind %r" % k)
 
 
@@ -350,6 +352,55 @@ def check_engine(expr):
         elif not rt.tree_matches(json.loads(term["output"]), {"r": exp[1]}):
             fails.append(("engine-output", "Pass with %r output %s expected r=%s" % (expr, term["output"], _show(exp[1]))))
     return fails
+
+
+SELECTOR_MEMBERS = [("name.$", "$$.State.Name"), ("idx.$", "$$.Map.Item.Index"), ("val.$", "$$.Map.Item.Value"), ("xname.$", "$$.Execution.Name"), ("inp.$", "$$.Execution.Input.n"),
+                    ("fmt.$", "States.Format('{}#{}', $$.State.Name, $$.Map.Item.Index)"), ("arr.$", "States.Array($$.Map.Item.Value, $$.State.Name)"), ("n.$", "$.n"),
+                    ("sum.$", "States.MathAdd($$.Map.Item.Index, $.n)"), ("lit", {"a": [1, None]}), ("nest", {"who.$": "$$.State.Name", "at.$": "$$.Map.Item.Index"})]
+
+
+def check_map_selector(sc):
+    """Through a Map state: the ItemSelector is evaluated once per item against the input and the context (the Map state's own $$.State, $$.Map.Item of that item), and the
+    context is the same for every item of every MaxConcurrency block. sc: dict(members=[indices into SELECTOR_MEMBERS], items=[...], mc=int)"""
+    from .. import world as W
+    tpl = {}
+    for i in sc["members"]:
+        k_, v_ = SELECTOR_MEMBERS[i]
+        tpl[k_] = copy.deepcopy(v_)
+    data = {"n": 3, "items": sc["items"]}
+    exp = []
+    for idx, item in enumerate(sc["items"]):
+        ctx = {"Execution": {"Input": copy.deepcopy(data), "Name": "e"}, "State": {"Name": "Fan"}, "Map": {"Item": {"Index": idx, "Value": copy.deepcopy(item)}}}
+        try:
+            exp.append(rt.evaluate_template(copy.deepcopy(tpl), copy.deepcopy(data), ctx))
+        except rt.Unspecified:
+            return [], True
+        except (rt.IntrinsicFailure, rt.PathFailure):
+            return [], True         # (failing selectors are the subject of the expression families)
+    w = W.World(seed=5)
+    try:
+        w.add_engine("A")
+        st_, r_ = w.create_state_machine("m", {"StartAt": "Fan", "States": {"Fan": {"Type": "Map", "ItemsPath": "$.items", "ItemSelector": tpl, "MaxConcurrency": sc["mc"], "End": True,
+                                                                                    "ItemProcessor": {"StartAt": "Worker", "States": {"Worker": {"Type": "Pass", "End": True}}}}}})
+        if st_ != 200:
+            raise HarnessError("map-selector machine refused: %r" % (r_,))
+        st_, resp = w.start_execution(W.sm_arn("m"), data, name="e")
+        w.run()
+        term = w.terminal(resp["executionArn"])
+    finally:
+        w.close()
+    if term is None:
+        return [("map-selector:no-terminal", "Map with ItemSelector %r never ended" % (tpl,))], False
+    if term["status"] != "SUCCEEDED":
+        return [("map-selector:status", "Map with ItemSelector %r over %r ended %s/%s" % (tpl, sc["items"], term["status"], term.get("error")))], False
+    got = json.loads(term["output"])
+    if not (isinstance(got, list) and len(got) == len(exp)):
+        return [("map-selector:shape", "output %s" % term["output"][:300])], False
+    for idx, (g_, e_) in enumerate(zip(got, exp)):
+        if not rt.tree_matches(g_, e_):
+            return [("map-selector:item-input-differs:%s" % ("first" if idx == 0 else "later"), "item %d of %r (MaxConcurrency %s): selector gave %s, the template evaluates to %s" % (
+                idx, sc["items"], sc["mc"], json.dumps(g_)[:300], _show(e_)))], False
+    return [], False
 
 
 # ------------------------------------------------------------------ campaign
@@ -436,6 +487,23 @@ def shard(k, seed, tier, examples=500, engine_cases=10):
             camp.count("hash-seed-compared", len(hs_exprs))
         except HarnessError as e:
             camp.harness_error(e)
+    @hypothesis.seed(seed + 7)
+    @settings(max_examples=max(6, engine_cases), deadline=None, database=None, suppress_health_check=list(HealthCheck), phases=[Phase.generate])
+    @given(st.fixed_dictionaries({"kind": st.just("map-selector"), "members": st.lists(st.integers(0, len(SELECTOR_MEMBERS) - 1), min_size=1, max_size=4, unique=True),
+                                  "items": st.lists(st.sampled_from([1, "x", {"k": 2}, [3], None, True]), min_size=1, max_size=5), "mc": st.sampled_from([0, 0, 1, 2, 3])}))
+    def selectors(sc):
+        try:
+            fs, skipped = check_map_selector(sc)
+        except Exception as e:
+            camp.harness_error("map-selector slice crashed on %r: %r" % (sc, e))
+            return
+        if skipped:
+            camp.count("skipped-unspecified")
+            return
+        camp.case(sc, nontrivial=len(sc["items"]) >= 2, classes=["map-selector", "map-selector-items-%d" % min(len(sc["items"]), 3), "map-selector-mc-%d" % sc["mc"]])
+        for b, d in fs:
+            camp.fail(b, sc, d)
+    selectors()
     for expr in eng:
         case = {"kind": "engine", "expr": expr}
         try:
